@@ -102,6 +102,12 @@ class Check:
             self.tier = "quick"
         self.seed = int(seed if seed is not None else os.environ.get("VERIF_SEED", "1"))
         self.rng = random.Random("%s-%d" % (prop, self.seed))
+        try:
+            import gen
+            gen.QUIRK_RNG = random.Random("quirks-%s-%d" % (prop, self.seed))
+            gen.QUIRKS.clear()
+        except ImportError:
+            pass
         self.t0 = time.time()
         self.evaluations = 0
         self.nontrivial = set()
@@ -244,6 +250,12 @@ class Check:
                                                   "search": "spec evaluated on the implementation's output for %d cases, no failing input" % self.evaluations})
             lines.append("VIOLATION property=%s replay=%s no-failing-input-found" % (self.prop, path))
             rc = 1
+        try:
+            import gen
+            for k, v in gen.QUIRKS.items():
+                self.hist["quirk:" + k] = v
+        except ImportError:
+            pass
         cov = {
             "obligations": len(self.obligations),
             "discharged": len(self.discharged),
